@@ -22,6 +22,9 @@ type Baton struct {
 	// point below such a function holds a lock (synctest treats a goroutine blocked
 	// on a sync.Mutex as runnable, so parking there would hang the bubble).
 	NoParkUnder []string
+	// OnlySites, when set, restricts parking to these sites (yield points that lie
+	// inside a critical section protected by a sync.Mutex cannot be parked at).
+	OnlySites []string
 }
 
 func (b *Baton) underLock() bool {
@@ -68,6 +71,18 @@ func (b *Baton) Hook(site string) {
 	if !b.active || b.underLock() {
 		b.mu.Unlock()
 		return
+	}
+	if len(b.OnlySites) > 0 {
+		ok := false
+		for _, s := range b.OnlySites {
+			if s == site {
+				ok = true
+			}
+		}
+		if !ok {
+			b.mu.Unlock()
+			return
+		}
 	}
 	p := &Parked{Site: site, Goid: goid(), ch: make(chan struct{})}
 	b.parked = append(b.parked, p)
